@@ -835,7 +835,7 @@ class ConsumerWorld(ClientWorld):
         return self.consec_failures
 
     def finish(self, horizon):
-        if self.PROP in ("C02", "C08", "C04"):
+        if self.PROP in ("C02", "C08", "C04") or self.cfg.get("check_delivery"):
             self.finish_c02(horizon)
         if self.PROP in ("C14", "C12"):
             self.finish_c14(horizon)
